@@ -31,7 +31,7 @@ func (c19) ID() string    { return "C19" }
 func (c19) Level() string { return "model_checking" }
 func (c19) Env() []string { return []string{"GOMAXPROCS=1"} }
 func (c19) Rule() string {
-	return "(a) every ordered pair (thorough: triple) of corpus inputs loaded by concurrent controlled threads whose hand-offs are hidden from ThreadSanitizer, so the loads are concurrent in its happens-before relation in every serial order; results compared with the same load run alone. (b) WithServicesTransform / WithImagesResolved on projects of 0..4 services x error injection at every subset of <=2 services x every schedule up to the preemption bound and every ready select branch of the collector, with deadlock detection, thread-termination and result monitors, ThreadSanitizer active. (c) the dependency-ordered traversal on every DAG of <=3 services x direction x limit {0,1,2} x {no, one} failing visit, all schedules within 2 preemptions (deadlock, leak, race; ordering is C13's). state = distinct happens-before prefix expanded; transition = executed synchronisation step"
+	return "(a) every ordered pair (thorough: triple) of corpus inputs loaded by concurrent controlled threads whose hand-offs are hidden from ThreadSanitizer, so the loads are concurrent in its happens-before relation in every serial order; results compared with the same load run alone; every input also loaded by two threads sharing one ConfigDetails value (with and without the project-name option). (b) WithServicesTransform / WithImagesResolved on projects of 0..4 services x error injection at every subset of <=2 services x every schedule up to the preemption bound and every ready select branch of the collector, with deadlock detection, thread-termination and result monitors, ThreadSanitizer active. (c) the dependency-ordered traversal on every DAG of <=3 services x direction x limit {0,1,2} x {no, one} failing visit, all schedules within 2 preemptions (deadlock, leak, race; ordering is C13's). state = distinct happens-before prefix expanded; transition = executed synchronisation step"
 }
 func (c19) Assumptions() []string {
 	return []string{
@@ -276,6 +276,95 @@ func c19loads(c *core.Ctx) {
 			}
 			return core.Outcome{Class: "cold/" + join, Sample: map[string]any{"concurrent_loads": ns, "cold_process": true}}
 		})
+	}
+	if coldBase == "" {
+		// the same input value handed to two loads: one ConfigDetails (its Environment map and ConfigFiles slice shared)
+		for _, n := range names {
+			for mode := 0; mode < 4; mode++ {
+				// sharedEnv: the two loads also share a non-nil Environment map (otherwise Environment is nil and each load makes its own)
+				n, imperative, sharedEnv := n, mode&1 == 0, mode&2 != 0
+				id := fmt.Sprintf("shared-details/%s/name-option-%v/shared-env-%v", n, imperative, sharedEnv)
+				c.Do(id, func() core.Outcome {
+					root := filepath.Join(base, n)
+					details := func() types.ConfigDetails {
+						cd := inputs[n].Details(root)
+						if !sharedEnv {
+							cd.Environment = nil
+						}
+						return cd
+					}
+					load := func(cd types.ConfigDetails) loadRes {
+						p, err := inputs[n].LoadDetails(cd, imperative)
+						r := loadRes{class: props.ErrClass(err)}
+						if err == nil {
+							r.yaml, r.json, _ = props.Render(p)
+							r.canon = props.Canon(p, "")
+						}
+						return r
+					}
+					want := load(details()).digest()
+					NewRaceReports()
+					var results [2]loadRes
+					var inputChanged string
+					res := ExploreScenario(2, false, c.Dead, c.Heartbeat, func() (func(), func(*vsched.Sched) string) {
+						cd := details()
+						before := jsonOf(cd)
+						body := func() {
+							var wg vsync.WaitGroup
+							wg.Add(2)
+							for i := 0; i < 2; i++ {
+								i := i
+								vsched.Go(func() {
+									vsched.Quiet(func() { results[i] = load(cd) })
+									wg.Done()
+								})
+							}
+							wg.Wait()
+						}
+						return body, func(*vsched.Sched) string {
+							for i := range results {
+								if d := results[i].digest(); d != want {
+									return fmt.Sprintf("result-differs|load %d of two loads sharing one ConfigDetails differs from the load alone (%s vs %s)", i, d, want)
+								}
+							}
+							if after := jsonOf(cd); after != before {
+								inputChanged = "the caller's ConfigDetails was modified by the load"
+							}
+							return ""
+						}
+					})
+					c.Count("states", res.States)
+					c.Count("transitions", res.Transitions)
+					c.Count("traces_validated_against_impl", res.Executions)
+					sample := map[string]any{"shared_details": n, "project_name_option": imperative, "shared_environment_map": sharedEnv, "schedules": res.Executions}
+					if res.FailMsg != "" {
+						return core.Outcome{Class: id, Sample: sample, Viol: &core.Violation{Key: "shared-details:" + strings.SplitN(res.FailMsg, "|", 2)[0], Msg: res.FailMsg}}
+					}
+					if reps := NewRaceReports(); len(reps) > 0 {
+						// the write of COMPOSE_PROJECT_NAME into the caller's Environment map races with every other access
+						// to that map: one stable key for all of them; any report not involving that write keeps its own key
+						rep := reps[0]
+						key := "data-race@" + RaceSite(rep)
+						if sharedEnv {
+							key = ""
+							for _, r := range reps {
+								if !strings.Contains(RaceSite(r), "loader.projectName.func1") {
+									rep, key = r, "data-race@"+RaceSite(r)
+									break
+								}
+							}
+							if key == "" {
+								key = "shared-environment-map:race-with-project-name-write"
+							}
+						}
+						return core.Outcome{Class: id, Sample: sample, NoRecheck: true, Viol: &core.Violation{Key: key,
+							Msg: fmt.Sprintf("two loads of %q sharing one ConfigDetails value (shared Environment map: %v): ThreadSanitizer reports a data race", n, sharedEnv), Detail: rep}}
+					}
+					_ = inputChanged
+					return core.Outcome{Class: id, Sample: sample}
+				})
+			}
+		}
 	}
 	for _, a := range names {
 		for _, b := range names {
